@@ -283,7 +283,9 @@ class Engine:
                 params.append((a.arg, ANN_KIND[ann]))
             res = ANN_KIND[ast.unparse(fn.returns)] if fn.returns is not None else "V"
             sorts = ([HEAP_SORTS[n] for n in SPEC_HEAP] if sf.heap else []) + [KIND_SORT[k] for _, k in params] + [KIND_SORT[res]]
-            if sf.opaque or getattr(sf, "hide", False):
+            if getattr(sf, "fuel", 0):
+                sorts = [IntS] + sorts
+            if sf.opaque or getattr(sf, "hide", False) or getattr(sf, "fuel", 0):
                 f = z3.Function("spec_" + name, *sorts)
             else:
                 f = z3.RecFunction("spec_" + name, *sorts)
@@ -292,6 +294,9 @@ class Engine:
         for name in defs:
             sp = self.specs[name]
             if sp["opaque"] or getattr(sp["sf"], "hide", False):
+                continue
+            if getattr(sp["sf"], "fuel", 0):
+                self.define_fueled(name, sp)
                 continue
             hp = Heap({n: z3.Const("h_%s" % n, HEAP_SORTS[n]) for n in HEAP_NAMES}, z3.Int("h_alloc"))
             env = {}
@@ -350,6 +355,28 @@ class Engine:
         for text in lm.ensures:
             ec = EC(lst, spec=True)
             st.assume(self.tb(self.ev(ast.parse(text.strip(), mode="eval").body, ec), ec))
+
+    def define_fueled(self, name, sp):
+        """f(n, H, args): for n > 0   f(n, ..) == body[inner fueled calls at n-1]   and   f(n, ..) == f(n-1, ..);
+        applications written in contracts carry the function's declared fuel, so E-matching unfolds at most that many
+        levels below any ground application (no matching loop on unbounded structures)."""
+        n = z3.Int("fuel!")
+        hp = Heap({m: z3.Const("h_%s" % m, HEAP_SORTS[m]) for m in HEAP_NAMES}, z3.Int("h_alloc"))
+        env, args = {}, []
+        for pn, k in sp["params"]:
+            c = z3.Const("p_%s" % pn, KIND_SORT[k])
+            env[pn] = T(k, c)
+            args.append(c)
+        st = St(env, hp, [])
+        ec = EC(st, spec=True)
+        ec.fuel_term = n - 1
+        body = self.spec_body(sp["fn"].body, ec, sp["res"])
+        hargs = hp.spec_args() if sp["heap"] else []
+        lhs = sp["f"](*([n] + hargs + args))
+        from .tr import forall as _forall
+        qs = [n] + hargs + args
+        self.axioms.append(_forall(qs, z3.Implies(n > 0, lhs == body), [lhs]))
+        self.axioms.append(_forall(qs, z3.Implies(n > 0, lhs == sp["f"](*([n - 1] + hargs + args))), [lhs]))
 
     def spec_body(self, stmts, ec, res):
         """if/return chains -> nested ite"""
@@ -876,6 +903,7 @@ class Engine:
         arr = fresh("cat", smt.ArrIV)
         i = z3.Int("i!")
         ec.st.assume(z3.ForAll([i], z3.Implies(z3.And(i >= 0, i < na), arr[i] == h.lget(ra, i)), patterns=[arr[i]]))
+        ec.st.assume(z3.ForAll([i], z3.Implies(z3.And(i >= 0, i < na), arr[i] == h.lget(ra, i)), patterns=[h.lget(ra, i)]))
         ec.st.assume(z3.ForAll([i], z3.Implies(z3.And(i >= 0, i < nb), arr[na + i] == h.lget(rb, i)),
                                patterns=[h.lget(rb, i)]))
         ec.st.assume(z3.ForAll([i], z3.Implies(z3.And(i >= na, i < na + nb), arr[i] == h.lget(rb, i - na)),
@@ -1169,6 +1197,8 @@ class Engine:
             bind_target(g.target, tV(h.lget(V.rv(l), q)))
         ec2 = EC(ec.st, spec=True, old=ec.old, bound=bound)
         ec2.fx = getattr(ec, "fx", None)
+        ec2.fuel_term = getattr(ec, "fuel_term", None)
+        ec2.reveal = getattr(ec, "reveal", False)
         for c in g.ifs:
             guards.append(self.tb(self.ev(c, ec2), ec2))
         body = self.tb(self.ev(gen.elt, ec2), ec2)
@@ -1324,12 +1354,18 @@ class Engine:
             ec2 = EC(St(env, ec.st.heap, []), spec=True)
             ec2.reveal = True
             return T(sp["res"], self.spec_body(sp["fn"].body, ec2, sp["res"]))
+        fuel = []
+        if getattr(sp["sf"], "fuel", 0):
+            ft = getattr(ec, "fuel_term", None)
+            fuel = [ft if ft is not None else z3.IntVal(sp["sf"].fuel)]
         if not sp["heap"]:
-            return T(sp["res"], sp["f"](*zs))
+            return T(sp["res"], sp["f"](*(fuel + zs)))
         hp = self.spec_heap_for(name, sp, zs, ec)
         if hp is None:
+            if fuel:
+                raise CheckerError("fueled spec functions are only supported in value mode / heap-pure functions")
             return T(sp["res"], self.call_spec_guarded(sp, zs, ec))
-        return T(sp["res"], sp["f"](*(hp + zs)))
+        return T(sp["res"], sp["f"](*(fuel + hp + zs)))
 
     def spec_closure(self, name):
         """spec functions reachable from `name` through calls in their bodies"""
@@ -1573,6 +1609,12 @@ class Engine:
         v = toV(self.ev(e.args[0], ec))
         names = [a.value for a in e.args[1:]]
         return T("b", z3.Or([isinst(v, cid(n)) for n in names]))
+
+    def sp_item(self, e, ec):
+        """item(xs, j): j-th element of a list (no negative-index normalisation, no dict reading)"""
+        l = toV(self.ev(e.args[0], ec))
+        j = self.coerce(self.ev(e.args[1], ec), "i", ec)
+        return tV(ec.st.heap.lget(V.rv(l), j))
 
     def sp_key_at(self, e, ec):
         d = toV(self.ev(e.args[0], ec))
@@ -1987,7 +2029,16 @@ class Engine:
             raise OutOfSubset("conditional mutation inside an expression")
         n = h.llen(r)
         self.note_store(ec, toV(x))
-        self.list_set_all(ec, r, n + 1, z3.Store(h.sel("lel", r), n, toV(x)))
+        old_arr = h.sel("lel", r)
+        new_arr = fresh("app", smt.ArrIV)
+        i = z3.Int("i!")
+        # the appended list, with triggers in both directions (a term on the old list produces the one on the new list)
+        ec.st.assume(new_arr == z3.Store(old_arr, n, toV(x)))
+        ec.st.assume(new_arr[n] == toV(x))
+        from .tr import forall as _forall
+        ec.st.assume(_forall([i], z3.Implies(z3.And(i >= 0, i < n), new_arr[i] == old_arr[i]), [old_arr[i]]))
+        ec.st.assume(_forall([i], z3.Implies(z3.And(i >= 0, i < n), new_arr[i] == old_arr[i]), [new_arr[i]]))
+        self.list_set_all(ec, r, n + 1, new_arr)
         return tV(V.none)
 
     def me_extend(self, recv, e, ec):
@@ -2006,6 +2057,7 @@ class Engine:
         i = z3.Int("i!")
         old_a, old_b = h.sel("lel", r), h.sel("lel", rb)
         ec.st.assume(z3.ForAll([i], z3.Implies(z3.And(i >= 0, i < na), arr[i] == old_a[i]), patterns=[arr[i]]))
+        ec.st.assume(z3.ForAll([i], z3.Implies(z3.And(i >= 0, i < na), arr[i] == old_a[i]), patterns=[old_a[i]]))
         ec.st.assume(z3.ForAll([i], z3.Implies(z3.And(i >= 0, i < nb), arr[na + i] == old_b[i]), patterns=[old_b[i]]))
         ec.st.assume(z3.ForAll([i], z3.Implies(z3.And(i >= na, i < na + nb), arr[i] == old_b[i - na]), patterns=[arr[i]]))
         self.list_set_all(ec, r, na + nb, arr)
